@@ -294,4 +294,48 @@ class ThrottleCheck(SubCheck):
         return {'nontrivial': idle_burst or contend, 'classes': ['callers=%d' % n] + (['idle-burst'] if idle_burst else []) + (['contended'] if contend else [])}
 
 
-SUBCHECKS = [AveragerCheck(), ThrottleCheck()]
+class AveragerProcesses(AveragerCheck):
+    name = 'averager_processes'
+
+    def examples(self, tier):
+        return 30 if tier == 'quick' else 1500
+
+    def execute(self, case, env):
+        import diskcache
+        from diskcache import recipes
+
+        from ..procsched import run_scheduled_procs
+
+        def mk(path):
+            if case['cache'] == 'fanout':
+                return diskcache.FanoutCache(path, shards=2, timeout=0)
+            return diskcache.Cache(path, timeout=0)
+
+        def setup(path):
+            base = mk(path)
+            av = recipes.Averager(base, 'avg-key')
+            for v in case['init']:
+                av.add(v)
+            return base
+
+        def make_client(path, shared, i):
+            c = shared if (case['mode'] == 'shared' and i >= 0) else mk(path)
+            for shard in ([c] if isinstance(c, diskcache.Cache) else c._shards):
+                shard._sql
+            return recipes.Averager(c, 'avg-key')
+
+        calls, run = run_scheduled_procs(env, case['progs'], case['schedule'], setup, make_client, avg_do, 'C20', final_ops=[('get',), ('pop',), ('get',)])
+        if run.limit_hit:
+            return {'nontrivial': False, 'classes': ['step-limit']}
+        mark_interleaved(calls, run.trace)
+        for c in calls:
+            if c.result[0] == 'exc':
+                raise Violation('C20/averager/unexpected-exception/%s' % c.result[1], 'call %r\n%s' % (c, fmt(calls)))
+        init = (float(sum(case['init'])), len(case['init']))
+        if linearize(calls, init, avg_apply, lambda s: s) is None:
+            raise Violation('C20/averager/linearizability/processes', 'no order of the calls explains these means (initial total,count = %r):\n%s' % (init, fmt(calls)))
+        adds = [c for c in calls if c.op[0] == 'add']
+        return {'nontrivial': any(c.interleaved for c in adds) and len({c.client for c in adds}) >= 2, 'classes': ['processes', 'cache=' + case['cache']]}
+
+
+SUBCHECKS = [AveragerCheck(), ThrottleCheck(), AveragerProcesses()]
